@@ -243,6 +243,12 @@ def _sweep(ctx, rep, backend, op, style, base, model_ok, model_rows):
                             problems.append("ambiguous outcome but the transaction's files were deleted")
                         if outcome in ("raise:storage",) and flipped is False and written and kept and k < (flip_idx or 0) and backend == "local":
                             rep.distribution["clean-failure-left-files"] += 1
+                    # the metadata lock is released on EVERY way out of commit() (unless the fault hit the release itself)
+                    if name not in ("lock.release",) and not (name == "delete_file" and ".locks" in str(arg)):
+                        lpq = h.metadata_manager.lock_provider
+                        still = (lpq.lock.is_held() if hasattr(lpq, "lock") else bool(getattr(lpq, "is_locked", False)))
+                        if still:
+                            problems.append("lock leaked: the metadata lock is still held by the handle after the operation ended")
                     # still usable — "afterwards": the failed caller is gone (its process ended / its lease lapsed)
                     if not problems:
                         try:
